@@ -752,6 +752,12 @@ class Term(Container):
                                           "multiple fock matrix elements with "
                                           f"intersecting indices: {self}")
             sub.update(sub_obj)
+        # fock matrix elements that are connected through a common index
+        # (f_pq f_qr): the new index of one substitution is removed by another
+        if any(new in sub for new in sub.values()):
+            raise NotImplementedError("Did not implement the case of "
+                                      "multiple fock matrix elements with "
+                                      f"intersecting indices: {self}")
         # if term is part of a polynom -> return the sub dict and perform the
         # substitution in the polynoms parent term object.
         # provide the target indices to the returned expression, because
